@@ -181,6 +181,9 @@ class Endpoint:
         now = self.now()
         out = self.api("datagrams_to_send", now)
         for data, addr in out:
+            if self.sim.rebind_each_left and self is self.sim.client and self.k.now < self.sim.cfg["t_fair"]:
+                self.sim.rebind_each_left -= 1
+                self.sim._rebind()
             self.sim.net.send(self, data, addr)
         self.rearm()
 
@@ -424,10 +427,12 @@ class SimNetwork:
     def _arrive(self, d, copy_index):
         self.in_flight -= 1
         ep = self.routes.get(d.dst)
-        if ep is None and d.dst in self.former_client_addrs and self.k.now >= self.sim.cfg["t_fair"]:
+        if ep is None and d.dst in self.former_client_addrs and (
+                self.k.now >= self.sim.cfg["t_fair"] or self.sim.cfg.get("old_addr_alive")):
             # fair phase: the NAT still forwards former mappings, so "the network eventually
             # delivers" also holds for a server that keeps using an older client address;
-            # during the adversarial phase a rebound address is dead
+            # during the adversarial phase a rebound address is dead (unless the run drew a NAT that keeps
+            # its former mappings: "old_addr_alive")
             ep = self.sim.client
         if ep is None:
             self.k.trace("noroute", d.id)
@@ -531,8 +536,19 @@ class TransportSim:
             cfg["blackouts"].append((start, start + dur))
         cfg["rebinds"] = []
         if "rebind" in on:
-            for _ in range(c.geometric(3, 0.7)):
+            for _ in range(c.geometric(p.get("max_rebinds", 3), p.get("rebind_mean", 0.7))):
                 cfg["rebinds"].append(cfg["t_adv"] * (1 + c.choose(15)) / 16.0)
+            if p.get("rebind_burst") and cfg["rebinds"] and c.chance(0.5):
+                # a burst of address changes a few milliseconds apart
+                cfg["old_addr_alive"] = c.chance(p.get("rebind_old_alive_p", 0.0)) if p.get("rebind_old_alive_p") else False
+                gap = (0.001, 0.005, 0.02, 0.06)[c.choose(4)]
+                t0 = min(cfg["rebinds"])
+                if c.chance(0.5):
+                    # ... or every one of the next n client datagrams leaves from a fresh address
+                    cfg["rebind_each"] = len(cfg["rebinds"])
+                    cfg["rebinds"] = [t0]
+                else:
+                    cfg["rebinds"] = [t0 + i * gap for i in range(len(cfg["rebinds"]))]
         cfg["p_spoof"] = 0.03 if "spoof" in on else 0.0
         cfg["p_timer_late"] = (0.0, 0.05, 0.2)[c.choose(3)] if "timer-late" in on else 0.0
         cfg["timer_late_max"] = (0.01, 0.1, 1.0)[c.choose(3)]
@@ -665,6 +681,8 @@ class TransportSim:
 
         cfg = self.cfg
         self.client_addr_n = 0
+        self.rebind_each_left = 0
+        self.rebind_each_armed = False
         co, cr = cfg["clock"]["client"]
         so, sr = cfg["clock"]["server"]
         self.client = Endpoint(self, "client", True, ("10.0.0.1", 40000), co, cr)
@@ -831,6 +849,9 @@ class TransportSim:
 
     def _rebind(self):
         c = self.client
+        if self.cfg.get("rebind_each") and not self.rebind_each_armed:
+            self.rebind_each_armed = True
+            self.rebind_each_left = self.cfg["rebind_each"]
         self.net.routes.pop(c.addr, None)
         self.net.former_client_addrs.add(c.addr)
         self.client_addr_n += 1
